@@ -58,6 +58,12 @@ META["C11"] = dict(
   note="Tolerances derive from the model's own massBalanceLimit (1e-3 m^3). The balance is asserted everywhere, also inside the findings.",
   technique="property-based testing (rapid) with conservation invariants and an independent bisection of the storage relation")
 
+META["C12"] = dict(
+  text="Conservation property test for the eight constituent transport / trapping models: the mass budget is closed per step (models are stepped with carried states) and over the run, on every branch the generator forces (lumped vs full fine-sediment branch, flood-plain deposition, deposition / remobilisation / neither, trapping fractions, minimum-volume flush, empty storage). Exploration.",
+  design_ref="DESIGN.md section 4, C12",
+  note="Per-step stored mass is observed by running one timestep per call with carried states (C06 checks that this equals the uninterrupted run).",
+  technique="property-based testing (rapid) with per-step and whole-run mass-budget invariants")
+
 import os, sys
 sys.path.insert(0, os.path.dirname(os.path.abspath(__file__)))
 from checks_config import CHECKS
